@@ -235,8 +235,14 @@ def init_rules(chk, r):
         try:
             if fr.geometry.name != l2:
                 chk.violation("active/default-is-not-first-geometry-column", dict(rep, got=repr(fr.geometry.name)))
-            s0 = fr.set_geometry(l0)
             same = lambda x: (x == l0) and (isinstance(x, str) == isinstance(l0, str))  # noqa: E731
+            # the first geometry column carries the falsy label: it is the default (D43)
+            fr0 = GeoDataFrame({lv: list(range(n)), l0: base["pg"].array, l1: base["pt"].array})
+            d00 = dd.from_pandas(fr0, npartitions=2)
+            got0 = [fr0.geometry.name, fr0.iloc[1:4].geometry.name, d00.geometry.name, d00.compute().geometry.name]
+            if not all(same(x) for x in got0):
+                chk.violation("active/default-is-not-first-geometry-column/falsy-label", dict(rep, first_geometry_column=repr(l0), got=[repr(x) for x in got0]))
+            s0 = fr.set_geometry(l0)
             got = [s0.geometry.name, GeoDataFrame(s0).geometry.name, s0.iloc[1:4].geometry.name, pd.concat([s0, s0]).geometry.name]
             if not all(same(x) for x in got):
                 chk.violation("active/falsy-column-label-not-honoured", dict(rep, selected=repr(l0), after=dict(zip(("set_geometry", "GeoDataFrame(frame)", "iloc", "concat"),
